@@ -1,3 +1,171 @@
-import ElfioVerif.Model.Writer
+/-
+C04 — saved files are structurally well-formed.
+
+The layout part of `elfio::save` is three passes over one file cursor
+(`layout_segments_and_their_sections` / `write_segment_data`, `layout_sections_without_segments`,
+`layout_section_table`).  The theorems below are the monotone cursor argument, for any number of
+sections and segments (induction over the member lists and the ordered segment list):
+
+  * `layoutLoose_disjoint`, `layoutLoose_aligned`   pass 3
+  * `wsd_monotone`                                   `write_segment_data`
+  * `layout_disjoint`                                the three passes of a successful `save`
+  * writer-domain rungs: see the second half of the file.
+
+No-wrap hypotheses (`looseNW`, `wsdLoopNW`, `layoutNW` — Lemmas/Layout.lean) are Bool-valued
+functions following the recursion of the pass: every cursor update `p ↦ p'` must satisfy
+`p.toNat ≤ p'.toNat` (for one 64-bit addition `p' = p + d` this is `p.toNat + d.toNat < 2^64`,
+`noWrap_iff`) and every offset stored in an ELF32 field must be `< 2^32`.
+-/
+import ElfioVerif.Lemmas.Layout
 namespace ElfioVerif.C04
+open ElfioVerif Gen
+
+/-- what the no-wrap functions demand of one cursor update -/
+theorem noWrap_iff (p d : BitVec 64) :
+    p.toNat ≤ (p + d).toNat ↔ p.toNat + d.toNat < 18446744073709551616 := bv_add_le_iff p d
+
+/-! ### pass 3: `layout_sections_without_segments` -/
+
+/-- Sections placed by `layout_sections_without_segments` (index ≠ 0): start at or after the
+    incoming cursor; their file range (for types that occupy file space) ends at or before the
+    outgoing cursor; of two placed sections the later one starts after the end of the earlier one;
+    sections inside a segment are unchanged; the cursor never decreases. -/
+theorem layoutLoose_disjoint (c : Cls) (segs : List Seg) (l : List SecBuf) (pos : BitVec 64)
+    (hnw : looseNW c segs l 0 pos = true) :
+    let r := layoutLoose c segs l 0 pos []
+    r.1.length = l.length ∧ pos.toNat ≤ r.2.toNat ∧
+    (∀ (k : Nat) (s : SecBuf), l[k]? = some s → withoutSegment segs k = false → r.1[k]? = some s) ∧
+    (∀ (k : Nat) (s : SecBuf), l[k]? = some s → withoutSegment segs k = true →
+      ∃ s', r.1[k]? = some s' ∧ SecBuf.Moved s s' ∧ s'.addr = s.addr ∧
+        (s.index ≠ 0 → pos.toNat ≤ s'.offset.toNat ∧ s'.offset.toNat ≤ r.2.toNat ∧
+          (lsws_occupies s.stype = true → s'.endN ≤ r.2.toNat))) ∧
+    (∀ (k1 k2 : Nat) (a b a' b' : SecBuf), k1 < k2 → l[k1]? = some a → l[k2]? = some b →
+      withoutSegment segs k1 = true → withoutSegment segs k2 = true →
+      r.1[k1]? = some a' → r.1[k2]? = some b' → a.index ≠ 0 → b.index ≠ 0 →
+      lsws_occupies a.stype = true → a'.endN ≤ b'.offset.toNat) := by
+  intro r
+  have hr : r = ((looseSpec c segs l 0 pos).1, (looseSpec c segs l 0 pos).2) := by
+    show layoutLoose c segs l 0 pos [] = _
+    rw [layoutLoose_eq_spec]; simp
+  obtain ⟨f1, f2, f3, f4, f5⟩ := looseSpec_facts c segs l 0 pos hnw
+  simp only [Nat.zero_add] at f3 f4 f5
+  rw [hr]
+  refine ⟨f1, f2, f3, ?_, ?_⟩
+  · intro k s hk hw
+    obtain ⟨s', h1, h2, h3, -, h5⟩ := f4 k s hk hw
+    exact ⟨s', h1, h2, h3, fun hi => ⟨(h5 hi).1, (h5 hi).2.1, (h5 hi).2.2.2⟩⟩
+  · intro k1 k2 a b a' b' hlt h1 h2 hw1 hw2 ha' hb' hia hib ho
+    exact (f5 k1 k2 a b a' b' hlt h1 h2 hw1 hw2 ha' hb' hia hib).2 ho
+
+/-- every section placed by `layout_sections_without_segments` starts at a multiple of its alignment -/
+theorem layoutLoose_aligned (c : Cls) (segs : List Seg) (l : List SecBuf) (pos : BitVec 64)
+    (hnw : looseNW c segs l 0 pos = true) (k : Nat) (s s' : SecBuf)
+    (hk : l[k]? = some s) (hw : withoutSegment segs k = true) (hi : s.index ≠ 0)
+    (hk' : (layoutLoose c segs l 0 pos []).1[k]? = some s') :
+    s'.offset.toNat % (max s.addrAlign.toNat 1) = 0 := by
+  rw [layoutLoose_eq_spec] at hk'
+  simp only [List.reverse_nil, List.nil_append] at hk'
+  obtain ⟨-, -, -, f4, -⟩ := looseSpec_facts c segs l 0 pos hnw
+  simp only [Nat.zero_add] at f4
+  obtain ⟨t, h1, -, -, -, h5⟩ := f4 k s hk hw
+  rw [hk'] at h1; simp only [Option.some.injEq] at h1; subst h1
+  exact (h5 hi).2.2.1
+
+/-- non-vacuity: `.text`-like section (align 16, 5 bytes) and a string table (align 1) after a
+    64-byte header: placed at 64 and 69 -/
+example :
+    let s1 : SecBuf := { SecBuf.fresh .c64 1 with size := 5, addrAlign := 16, index := 1 }
+    let s2 : SecBuf := { SecBuf.fresh .c64 3 with size := 7, addrAlign := 1, index := 2 }
+    looseNW .c64 [] [SecBuf.fresh .c64 0, s1, s2] 0 64 = true ∧
+    ((layoutLoose .c64 [] [SecBuf.fresh .c64 0, s1, s2] 0 64 []).1.map (·.offset)) = [0, 64, 69] := by
+  decide
+
+/-! ### pass 2: `write_segment_data` -/
+
+/-- `write_segment_data` (any member list, any state satisfying the invariant `LayInv`):
+    the cursor never decreases; `gen` only gains `true`s; already generated members are not
+    re-placed (their section is unchanged); every member generated in this call that occupies file
+    space is placed between the cursor before and the cursor after; all sections keep every field
+    but `addr`/`offset`; and the invariant (placed sections pairwise disjoint, inside
+    `[lo, cursor)`) is maintained. -/
+theorem wsd_monotone (c : Cls) (g : Seg) (segStart : BitVec 64) (l : List (BitVec 16)) (st st' : WsdSt)
+    (lo : Nat) (hinv : LayInv lo st.lay) (hnw : wsdLoopNW c g segStart l st = true)
+    (h : wsdLoop c g segStart l st = .ok (some st')) :
+    st.lay.pos.toNat ≤ st'.lay.pos.toNat ∧
+    (∀ (k : Nat), st.lay.gen[k]? = some true → st'.lay.gen[k]? = some true) ∧
+    (∀ (k : Nat) (s : SecBuf), st.lay.gen[k]? = some true → st.lay.secs[k]? = some s → st'.lay.secs[k]? = some s) ∧
+    (∀ (k : Nat) (s' : SecBuf), st.lay.gen[k]? ≠ some true → st'.lay.gen[k]? = some true →
+      st'.lay.secs[k]? = some s' → s'.Occ →
+      st.lay.pos.toNat ≤ s'.offset.toNat ∧ s'.endN ≤ st'.lay.pos.toNat) ∧
+    (∀ (k : Nat) (s : SecBuf), st.lay.secs[k]? = some s → ∃ s', st'.lay.secs[k]? = some s' ∧ SecBuf.Moved s s') ∧
+    LayInv lo st'.lay := by
+  obtain ⟨hi, hs⟩ := wsdLoop_inv c g segStart l st st' lo hinv hnw h
+  exact ⟨hs.mono, hs.genMono, fun k s hg => hs.frame k s hg, fun k s' hn hg => hs.fresh k s' hn hg, hs.moved, hi⟩
+
+/-! ### the three passes of `save` -/
+
+theorem save_cursor0_toNat (a b c : BitVec 16) :
+    (save_cursor0 a b c).toNat = a.toNat + b.toNat * c.toNat := by
+  have ha := a.isLt; have hb := b.isLt; have hc := c.isLt
+  have hm : b.toNat * c.toNat < 65536 * 65536 := Nat.mul_lt_mul'' hb hc
+  simp only [save_cursor0, BitVec.toNat_add, BitVec.toNat_mul, BitVec.toNat_setWidth, Nat.reducePow]
+  simp only [Nat.reduceMul] at hm
+  rw [Nat.mod_eq_of_lt (show a.toNat < 18446744073709551616 by omega),
+      Nat.mod_eq_of_lt (show b.toNat < 18446744073709551616 by omega),
+      Nat.mod_eq_of_lt (show c.toNat < 18446744073709551616 by omega),
+      Nat.mod_eq_of_lt (show b.toNat * c.toNat < 18446744073709551616 by omega)]
+  omega
+
+/-- **Disjointness of everything `save` writes.**  For a successful `save` (any object, any number
+    of sections and segments; no writer-domain hypothesis): with `eh = e_ehsize`,
+    `pht = e_phentsize * e_phnum` and `shoff` the section header table offset,
+
+      ELF header `[0, eh)`  <  program header table `[eh, eh + pht)`  ≤  every placed non-empty
+      file-occupying section `[offset, offset+size)`  ≤  `shoff`,  `shoff % 16 = 0`,
+
+    and two such sections are disjoint.  "Placed" = generated by a segment in pass 2 or outside all
+    segments (pass 3).  Hypotheses: fewer than 2^16 sections; a section that occupies file space
+    does not carry index 0 (`set_offset` is skipped for index 0; true when section 0 is the
+    SHT_NULL section); no wrap-around (`layoutNW`).
+
+    Segments whose offset was initialised to 0 (`lseg_offset0`) need no special treatment here:
+    they change `seg_start_pos` and the initial sizes, but their members are still placed at the
+    running cursor.  What they break is the *segment* range (it starts at file offset 0 and contains
+    the headers), which concerns `member_inside` below, not disjointness. -/
+theorem layout_disjoint (o : Obj) (os : OStream) (r : SaveRes) (hdr : Bytes)
+    (hs : save o os = .ok r) (hok : r.ok = true) (hh : o.hdr = some hdr)
+    (hn : o.secs.length < 65536)
+    (h0 : ∀ (i : Nat) (s : SecBuf), o.secs[i]? = some s → s.Occ → s.index ≠ 0)
+    (hnw : layoutNW o hdr = true) :
+    ∃ res, layoutOf o hdr = .ok (some res) ∧
+      let eh := (Hdr.e_ehsize o.cls o.enc res.hdr0).toNat
+      let pht := (Hdr.e_phentsize o.cls o.enc res.hdr0).toNat * (Hdr.e_phnum o.cls o.enc res.hdr0).toNat
+      let shoff := r.obj.curPos.toNat
+      let placed := fun (k : Nat) => res.lay2.gen[k]? = some true ∨ withoutSegment r.obj.segs k = true
+      (∀ (k : Nat) (s : SecBuf), r.obj.secs[k]? = some s → placed k → s.Occ →
+        eh + pht ≤ s.offset.toNat ∧ s.endN ≤ shoff) ∧
+      (∀ (k1 k2 : Nat) (a b : SecBuf), k1 ≠ k2 → r.obj.secs[k1]? = some a → r.obj.secs[k2]? = some b →
+        placed k1 → placed k2 → a.Occ → b.Occ → a.endN ≤ b.offset.toNat ∨ b.endN ≤ a.offset.toNat) ∧
+      eh + pht < shoff ∧ shoff % 16 = 0 := by
+  obtain ⟨hdr', res, hh', hl, hsegs, hcur, hsecs⟩ := save_layout o os r hs hok
+  rw [hh] at hh'; simp only [Option.some.injEq] at hh'; subst hh'
+  refine ⟨res, hl, ?_⟩
+  obtain ⟨hP, -, hlt, h16⟩ := layout_packed o hdr res hl hnw hn h0
+  have hP' : Packed res.pos0.toNat res.pos3.toNat r.obj.secs
+      (fun k => res.lay2.Gen k ∨ withoutSegment res.segs k = true) := by
+    apply hP.of_hdrOf
+    rw [hsecs, residentForSave_hdr]; simp
+  have hpos0 := (layoutOf_parts o hdr res hl).2.1
+  have hp0 : res.pos0.toNat = (Hdr.e_ehsize o.cls o.enc res.hdr0).toNat +
+      (Hdr.e_phentsize o.cls o.enc res.hdr0).toNat * (Hdr.e_phnum o.cls o.enc res.hdr0).toNat := by
+    rw [hpos0, save_cursor0_toNat]
+  simp only [hsegs, hcur]
+  refine ⟨?_, ?_, ?_, h16⟩
+  · intro k s hk hp ho
+    have := hP'.inR k s hk hp ho
+    omega
+  · intro k1 k2 a b hne h1 h2 hp1 hp2 ha hb
+    exact hP'.disj k1 k2 a b hne h1 h2 hp1 hp2 ha hb
+  · have := hP'.le; omega
+
 end ElfioVerif.C04
